@@ -28,12 +28,42 @@ def run(ctx):
     ctx.step(publish, ctx)
     ctx.step(c05.unlink_first, ctx, "C12.erase-next", all_or_nothing=True)
     ctx.step(iters, ctx)
+    ctx.step(construct, ctx)
     # a traversal is only protected once its handle is in the log: every way of reaching the list through a handle registers
     ctx.step(c05.register, ctx, "C12.register", True, False)
     from . import c13
     ctx.step(c13.uaf, ctx, "C12.uaf", [f for f in ctx.fb.functions(rec=RCU)], floor=10)
     ctx.step(common.atomic_floors, ctx, "C12.orders", [RCU, NODE], floor=20, files=["rcu_list.hpp"])
     ctx.step(common.witnesses, ctx, "C12.witness", ["C12"])
+
+
+def construct(ctx):
+    """the element a traversal finds is the element the caller described: emplace_*(args...) builds T(args...), as every
+    standard container does.  List-initialisation `T{args...}` prefers an initializer_list constructor
+    (vector<int>(3, 7) is {7,7,7}, vector<int>{3, 7} is {3,7}) and narrows differently."""
+    rid = "C12.construct"
+    ctx.rule(rid, "the node's payload is direct-initialised with parentheses from the forwarded arguments", floor=2)
+    n = 0
+    for f in ctx.fb.functions(rec=NODE):
+        if f.kind != "ctor" or f.defaulted:
+            continue
+        for i in f.inits:
+            if i.get("field") != "data" or not i.get("init"):
+                continue
+            e = f.s(i["init"])
+            while e is not None and e["k"] in ("ExprWithCleanups", "CXXBindTemporaryExpr", "MaterializeTemporaryExpr"):
+                ch = f.children(e)
+                e = ch[0] if ch else None
+            if e is None:
+                continue
+            n += 1
+            listy = e["k"] == "InitListExpr" or (e["k"] in ("CXXConstructExpr", "CXXTemporaryObjectExpr") and e.get("list_init"))
+            ctx.ob(rid, not listy, f.where, "node::data is built as T(args...)", "" if not listy else
+                   "node::data is list-initialised (T{args...}): for a payload with an initializer_list constructor the "
+                   "element stored differs from the one every other container would build from the same arguments",
+                   fn=f.label, inst=f.qname)
+    if n == 0:
+        ctx.broken("rcu_list::node constructor / its 'data' initialiser not found (anchor vanished)")
 
 
 def wmutex(ctx):
